@@ -11,7 +11,18 @@ Direction B: (i) systematic + random update sequences through the three public r
 (VarzReceiver static calls, class-level VarzBase metrics called with a source, per-source VarzBase
 instances incl. Measure()) from {the same object, fresh equal objects, re-used equal objects};
 (ii) end-to-end: a real MessageDispatcher over a mock sink, recordings observed at the
-VarzReceiver boundary (the dispatcher builds a fresh Source per call and per reply).
+VarzReceiver boundary (the dispatcher builds a fresh Source per call and per reply);
+(iii) time: the virtual loop moves the clock (the real LowResolutionTime ticks on the real timer
+queue) by seconds ... more than VarzAggregator.MAX_AGG_AGE between recordings, aggregation passes
+fall inside the idle windows, long-lived bound holders go idle and resume next to holders of equal
+sources made before / after the window and the unbound / static forms (`tick` ops of the api
+scripts; _idle_systematic, _gen_timed), and a real VarzSocketWrapper (bound open_latency timer,
+byte rates, connection counters) that opens, idles, is polled and re-opens (_gen_sock; recordings
+observed at VarzMetric.__call__).  Each Sample event carries where the sample landed (room / took:
+the series of its key in VARZ_DATA before and after the call);
+(iv) scale: 2300-6500 distinct sources on one counter / rate metric with bystander services, IncRun
+events (runs of increments, expanded exactly by the spec), service-level aggregates at checkpoints.
+Direction A also replays behaviours with clock steps (Varz_sim_age.cfg, 1 unit = 150 s).
 Every verdict is VarzAbs's.
 """
 import random
@@ -519,7 +530,7 @@ def _idle_systematic(tier):
   n = 0
   for k in ('timer', 'avgrate', 'counter', 'gauge', 'rate'):
     pct = k in ('timer', 'avgrate')
-    for idle in (idles if pct else [[301], [1000]]):
+    for idle in (idles if (k == 'timer' or (pct and tier != 'quick')) else ([[299], [301], [150, 151]] if pct else [[301], [1000]])):
       for aggin in ((0, 1, 2) if pct else (1,)):
         for res in resumes:
           for cap in ((2, 1000) if (pct and tier != 'quick') else (2 if n % 3 == 0 else 1000,)):
@@ -585,20 +596,25 @@ def _scale_cases(tier, rng):
   """Thousands of distinct sources on one counter / rate metric (one service's endpoints, recorded through
   fresh equal Source objects as the dispatcher does), bystander services on the same metric, service-level
   aggregates at checkpoints.  Judged by C18.sum exactly (every increment is in the trace)."""
-  def case(kind, n, style, marks, seed):
-    return {'mode': 'scale', 'kind': kind, 'n': n, 'style': style, 'marks': marks, 'seed': seed}
+  def case(kind, n, style, marks, selfkey=True, touch=True):
+    # selfkey: one bystander records through the Source that has only (service, client id);
+    # touch: the bystanders keep being recorded now and then while the big service grows
+    return {'mode': 'scale', 'kind': kind, 'n': n, 'style': style, 'marks': marks, 'selfkey': selfkey, 'touch': touch,
+            'seed': rng.randrange(1 << 20)}
   out = [
-    case('counter', 2500, 'cls', [999, 1001, 1999, 2003, 2500], rng.randrange(1 << 20)),
-    case('rate', 2300, 'recv', [1500, 2100, 2300], rng.randrange(1 << 20)),
+    case('counter', 2500, 'cls', [999, 1001, 1999, 2003, 2500]),
+    case('rate', 2300, 'recv', [1500, 2100, 2300], selfkey=False, touch=False),
   ]
   if tier != 'quick':
     out += [
-      case('counter', 4200, 'inst', [1000, 2000, 2001, 2002, 3000, 3001, 4200], rng.randrange(1 << 20)),
-      case('counter', 3100, 'recv', [10, 500, 999, 1000, 1001, 1500, 1999, 2000, 2001, 2002, 2500, 3100], rng.randrange(1 << 20)),
-      case('rate', 2600, 'cls', [2600], rng.randrange(1 << 20)),
-      case('aggtimer', 2200, 'cls', [1100, 2200], rng.randrange(1 << 20)),
-      case('counter', 1200, 'cls', [600, 1200], rng.randrange(1 << 20)),
-      case('counter', 6500, 'cls', [3000, 6500], rng.randrange(1 << 20)),
+      case('counter', 4200, 'inst', [1000, 2000, 2001, 2002, 3000, 3001, 4200], selfkey=False),
+      case('counter', 3100, 'recv', [10, 500, 999, 1000, 1001, 1500, 1999, 2000, 2001, 2002, 2500, 3100], touch=False),
+      case('rate', 2600, 'cls', [2600]),
+      case('aggtimer', 2200, 'cls', [1100, 2200], selfkey=False, touch=False),
+      case('counter', 1200, 'cls', [600, 1200]),
+      case('counter', 6500, 'cls', [3000, 6500], selfkey=False, touch=False),
+      case('counter', 2100, 'inst', [2100], selfkey=False, touch=False),
+      case('rate', 3300, 'cls', [1100, 2200, 3300], selfkey=False, touch=False),
     ]
   return out
 
@@ -606,7 +622,7 @@ def _scale_cases(tier, rng):
 def cases(prop, tier, seed):
   rng = random.Random(1000003 * int(seed) + 18)
   out = _systematic() + _interleaved()
-  n_api, n_e2e, n_timed, n_sock = (700, 200, 300, 120) if tier == 'quick' else (8000, 1500, 4000, 1500)
+  n_api, n_e2e, n_timed, n_sock = (550, 180, 250, 100) if tier == 'quick' else (8000, 1500, 4000, 1500)
   for _ in range(n_api):
     out.append(_gen_api(rng))
   for _ in range(n_e2e):
@@ -851,7 +867,8 @@ def _run_scale(script):
   # bystanders first: they are the oldest series of the metric
   for _ in range(7):
     record([1, 2, 1, 0], 1)
-  record([0, 3, 0, 1], 4)          # a source that is nothing but (service, client id)
+  if script['selfkey']:
+    record([0, 3, 0, 1], 4)        # a source that is nothing but (service, client id)
   record([2, 3, 5, 1], 2)
   record([1, 2, 1, 0], 1, side, 'side')
   marks = set(script['marks'])
@@ -865,9 +882,9 @@ def _run_scale(script):
     if len(later) > 3 and i % 97 == 50:
       j = later.pop(0)
       record([1 + j % 2, 1, j, 0], 1)
-    if i % 500 == 0:
-      record([1, 2, 1, 0], 1)      # the bystander stays in use
-      record([0, 3, 0, 1], 1)
+    if i % 500 == 0 and script['touch']:
+      record([1, 2, 1, 0], 1)      # the bystanders stay in use
+      record([0, 3, 0, 1] if script['selfkey'] else [2, 3, 5, 1], 1)
     if i in marks:
       aggs()
   rig.aggregate('default')
@@ -1241,7 +1258,7 @@ def replay_behaviours(prop, tier, seed):
     raise RuntimeError('probe failed: ' + probe['err'])
   eq = probe['ok']['eq']
   cfg = 'Varz_sim_eq.cfg' if eq else 'Varz_sim_noeq.cfg'
-  num = 300 if tier == 'quick' else 2000
+  num = 220 if tier == 'quick' else 2000
   r, behs = tlc.simulate_behaviours('Varz', cfg, num=num, depth=22, seed=int(seed) + 1, timeout=900)
   if not behs:
     raise RuntimeError('no behaviours from TLC simulate:\n' + r.stdout[-2000:])
@@ -1251,7 +1268,7 @@ def replay_behaviours(prop, tier, seed):
   aged = 0
   if eq:
     # behaviours with the clock: one model unit = MAX_AGG_AGE / MaxAge = 150 s of the real low-resolution clock
-    r2, behs2 = tlc.simulate_behaviours('Varz', 'Varz_sim_age.cfg', num=(100 if tier == 'quick' else 1200), depth=24,
+    r2, behs2 = tlc.simulate_behaviours('Varz', 'Varz_sim_age.cfg', num=(80 if tier == 'quick' else 1200), depth=24,
                                         seed=int(seed) + 7, timeout=900)
     if not behs2:
       raise RuntimeError('no behaviours from TLC simulate (age):\n' + r2.stdout[-2000:])
